@@ -78,7 +78,7 @@ def type_name(k, pose):
     raise KeyError(type(pose))
 
 
-def build(k, shape, ghost, point_rot=None, opaque_chi2=False):
+def build(k, shape, ghost, point_rot=None, opaque_chi2=False, identity_offsets=False):
     """Returns (graph, vertices, edges)."""
     r = k.r
     Cut = cut_error_edge_class(k, ghost, point_rot, opaque_chi2)
@@ -96,7 +96,8 @@ def build(k, shape, ghost, point_rot=None, opaque_chi2=False):
             es.append(r.EdgeOdometry(list(ids), k.spd_matrix("Om%d" % j, POSE_C[T]), k.pose(T, "z%d" % j)))
         elif kind == "landmark":
             TP, TL = types[ids[0]], types[ids[1]]
-            es.append(r.EdgeLandmark(list(ids), k.spd_matrix("Om%d" % j, POSE_C[TL]), k.pose(TL, "z%d" % j), k.pose(TP, "off%d" % j), 0))
+            off = k.pose_cls(TP).identity() if identity_offsets else k.pose(TP, "off%d" % j)
+            es.append(r.EdgeLandmark(list(ids), k.spd_matrix("Om%d" % j, POSE_C[TL]), k.pose(TL, "z%d" % j), off, 0))
         else:
             raise KeyError(kind)
     g = r.Graph(es, vs)
